@@ -9,7 +9,8 @@ SHRINK_BUDGET = 300
 
 HP, NSLOTS, FILES, CALLABLE = base.HP, base.NSLOTS, base.FILES, base.CALLABLE
 GROUPS = {"N": [0, 3, 9], "A": [1, 4], "M": [2, 5, 10, 11], "CA": [6, 7], "CB": [8, 12]}
-FAMILY = base.FAMILY
+FAMILY = dict(base.FAMILY)
+FAMILY.update({16: "GEN"})      # the CrashOnAllocationAllocator (base class default names)
 GUARD = [0x42, 0x41, 0x53]
 INTERESTING = [0x00, 0xCD, 0xA5, 0xFF, 0x42, 0x41, 0x53, 0x43, 0x40, 0xEE]
 
@@ -165,9 +166,79 @@ class Gen(base.Gen):
         else:
             self.ops.append("invalidate @%d 0" % self.rng.choice([0, 5, 1168, 1168 + 512 * 3 + 1]))
 
+    # ---- C06's own operations: MemoryLeakAllocator forwarders, NullUnknownAllocator, CrashOnAllocationAllocator
+    def mlaalloc(self):
+        s = self.pick_slot()
+        if s is None:
+            return
+        ai = self.rng.choice([13, 14])
+        l, size = self.new_label(), self.size()
+        f, ln = self.loc()
+        self.ops.append("mlaalloc %d %s %d %d %s %d" % (ai, l, s, size, f, ln))
+        # the record names the wrapped allocator (registry 1 resp. 12), inline layout
+        self.blocks[l] = dict(slot=s, size=size, alloc={13: 1, 14: 12}[ai], sep=False, stage=self.stage, period=self.period, tracked=True)
+        self.occupied.add(s)
+
+    def mlafree(self):
+        rng = self.rng
+        tr = self.tracked()
+        f, ln = self.loc()
+        x = rng.random()
+        if x < 0.8 and tr:
+            inline = [l for l in tr if not self.blocks[l]["sep"]]
+            l = rng.choice(inline if inline and rng.random() < 0.8 else tr)
+            self.ops.append("mlafree %d %s 0 %s %d" % (rng.choice([13, 14]), l, f, ln))
+            self.gone(l)
+        elif x < 0.9 and tr:
+            self.ops.append("mlafree %d %s %d %s %d" % (rng.choice([13, 14]), rng.choice(tr), rng.choice([-1, 1, 3]), f, ln))
+        elif x < 0.95 or not self.stale:
+            self.ops.append("mlafree %d null 0 %s %d" % (rng.choice([13, 14]), f, ln))
+        else:
+            l = rng.choice(self.stale)
+            if not [m for m in tr if self.blocks[m]["slot"] == self.blocks[l]["slot"]]:
+                self.ops.append("mlafree %d %s 0 %s %d" % (rng.choice([13, 14]), l, f, ln))
+
+    def nullfree(self):
+        rng = self.rng
+        tr = self.tracked()
+        f, ln = self.loc()
+        x = rng.random()
+        if x < 0.75 and tr:
+            l = rng.choice(tr)
+            b = self.blocks[l]
+            self.ops.append("nullfree %s 0 %s %d %d" % (l, f, ln, b["sep"]))
+            # whatever is reported, the record is gone and the block was NOT handed back: the client still owns it
+            b["tracked"] = False
+            if not self.no_drop and rng.random() < 0.7:
+                self.ops.append("drop " + l)
+                self.occupied.discard(b["slot"])
+                self.stale.append(l)
+            else:
+                self.orphans.append(l)
+        elif x < 0.9 and tr:
+            self.ops.append("nullfree %s %d %s %d %d" % (rng.choice(tr), rng.choice([-2, -1, 1, 2]), f, ln, rng.random() < 0.5))
+        else:
+            self.ops.append("nullfree null 0 %s %d 0" % (f, ln))
+
+    def nullalloc(self):
+        f, ln = self.loc()
+        self.ops.append("nullalloc %d %s %d %d" % (self.size(), f, ln, self.rng.random() < 0.5))
+
     def step(self):
         x = self.rng.random()
         n = len(self.tracked())
+        if x < 0.05:
+            y = self.rng.random()
+            if y < 0.3:
+                self.mlaalloc()
+            elif y < 0.6:
+                self.mlafree()
+            elif y < 0.9:
+                self.nullfree()
+            else:
+                self.nullalloc()
+            return
+        x = self.rng.random()
         if x < 0.24 or n == 0 and x < 0.5:
             self.alloc()
         elif x < 0.31:
@@ -255,6 +326,84 @@ def gen_mrp_case(rng, ntests):
     return g.ops
 
 
+def gen_special_case(rng, n):
+    """C06's own objects made frequent: MemoryLeakAllocator forwarders, releases through the NullUnknownAllocator, and the
+    CrashOnAllocationAllocator as a current allocator (all three families may share it: one object, never a mismatch)"""
+    g = Gen(rng)
+    if rng.random() < 0.5:
+        g.period = "enabled"; g.ops.append("period enable")
+    crash = rng.random() < 0.5
+    nalloc = 0
+    if crash:
+        for fam in rng.sample(["new", "newarray", "malloc"], rng.randint(1, 3)):
+            g.ops.append("setcurx %s 16" % fam)
+            g.cur[fam] = 16
+    for _ in range(n):
+        x = rng.random()
+        before = len(g.blocks)
+        if x < 0.18:
+            g.mlaalloc()
+        elif x < 0.34:
+            g.mlafree()
+        elif x < 0.5:
+            g.nullfree()
+        elif x < 0.54:
+            g.nullalloc()
+        elif x < 0.62:
+            g.write()
+        elif x < 0.66:
+            g.typecheck_op()
+        elif crash and x < 0.72:
+            # aim at the next allocation number (the generator's count; failed allocations make it drift, which is fine)
+            g.ops.append("crashon %d" % max(0, nalloc + 1 + rng.choice([0, 0, 0, 1, -1, 2])))
+        elif x < 0.86:
+            g.galloc()
+        elif x < 0.95:
+            g.grelease()
+        else:
+            g.alloc()
+        nalloc += len(g.blocks) - before
+    for l in list(g.tracked()):
+        b = g.blocks[l]
+        if b["alloc"] == 16:
+            fam = b.get("gfam", "new")
+            g.ops.append("grel %s %s 0 z.c 1" % (base.REL_FORMS[fam][0], l))
+        else:
+            g.ops.append("free %d %s 0 z.c 1 %d" % (b["alloc"], l, b["sep"]))
+    return g.ops
+
+
+def sweep_special(tc, corrupt):
+    """every allocating allocator x {both MemoryLeakAllocator wrappers, the NullUnknownAllocator} on the releasing side, and
+    blocks acquired through the wrappers released through every allocator"""
+    ops = ["setup", "typecheck " + ("on" if tc else "off")]
+    k = 0
+    for a in CALLABLE:
+        for rel in ("mla13", "mla14", "null"):
+            k += 1
+            ops.append("alloc q%d %d 6 %d s.c %d 0" % (k, (k * 5) % NSLOTS, a, k))
+            if corrupt:
+                ops.append("write q%d %d 00" % (k, 6 + k % 3))
+            if rel == "null":
+                ops.append("nullfree q%d 0 t.c %d 0" % (k, k))
+                ops.append("nullfree q%d 0 t.c %d 0" % (k, k))        # again: now it is not allocated
+                ops.append("drop q%d" % k)
+            else:
+                ops.append("mlafree %s q%d 0 t.c %d" % (rel[3:], k, k))
+                ops.append("mlafree %s q%d 0 t.c %d" % (rel[3:], k, k))
+    for w in (13, 14):
+        for b in CALLABLE:
+            k += 1
+            ops.append("mlaalloc %d q%d %d 9 s.c %d" % (w, k, (k * 5) % NSLOTS, k))
+            if corrupt:
+                ops.append("write q%d %d ff" % (k, 9 + k % 3))
+            ops.append("free %d q%d 0 t.c %d 0" % (b, k, k))
+    for size in (0, 1, 400):
+        ops.append("nullalloc %d s.c 1 0" % size)
+        ops.append("nullalloc %d s.c 1 1" % size)
+    return ops
+
+
 def gen_malformed(rng, n):
     g = Gen(rng)
     g.no_drop = True
@@ -277,6 +426,8 @@ def gen_malformed(rng, n):
                 "setcur new 13", "setcur malloc 99", "setcur sideways 1",
                 "gnew q %d 4 f.c 1" % rng.choice(sorted(g.occupied) or [0]),
                 "gfree nolabel 0 f.c 1", "typecheck maybe", "invalidate nolabel 0",
+                "mlafree 12 %s 0 f.c 1" % l, "mlafree 13 nolabel 0 f.c 1", "mlaalloc 15 q 3 4 f.c 1", "mlaalloc 13 q %d 4 f.c 1" % rng.choice(sorted(g.occupied) or [0]),
+                "nullfree nolabel 0 f.c 1 0", "nullalloc 4 f.c 99999999999 0", "crashon zz", "setcurx new 3", "setcurx sideways 16", "setup",
             ]))
     return g.ops
 
@@ -391,6 +542,11 @@ def generate(rng, tier):
         out.append(("malformed", gen_malformed(rng, rng.choice([5, 20, 60]))))
     for _ in range(n // 8):
         out.append(("mrp", gen_mrp_case(rng, rng.choice([1, 2, 4, 8]))))
+    for _ in range(n // 6):
+        out.append(("special", gen_special_case(rng, rng.choice([4, 12, 40, 120]))))
+    for tc in (True, False):
+        for corrupt in (False, True):
+            out.append(("sweep_special", sweep_special(tc, corrupt)))
     out += sweeps(rng, tier)
     return out
 
@@ -403,8 +559,14 @@ def signature(r):
 
 
 def translate(ctx):
-    from translate import extract_leakdetector
-    return extract_leakdetector.run()
+    from translate import extract_leakdetector, extract_misuse
+    problems = []
+    for ex in (extract_leakdetector, extract_misuse):
+        try:
+            problems += ex.run() or []
+        except Exception as e:
+            problems.append("translator %s cannot translate the current source: %s" % (ex.__name__.split(".")[-1], e))
+    return problems
 
 
 def extra(ctx, exe):
@@ -424,6 +586,8 @@ def _classes(r):
         if w[0] == ">":
             if op and op[0] in ("free", "grel", "realloc") and fails == 0:
                 yield "release_silent_" + ("overload" if op[0][0] == "g" else "direct")
+            if op and op[0] in ("mlafree", "nullfree"):
+                yield "release_through_%s_%s" % (op[0][:-4], "silent" if fails == 0 else "reported")
             op, fails = w[1:], 0
             if op[:1] == ["overloads"]:
                 ts = op[1] == "threadsafe"
@@ -443,6 +607,12 @@ def _classes(r):
             yield "overload_release_poisoned" if w[3] != "-" and set(w[3]) <= set("cd") else "overload_release_empty_block" if w[3] == "-" else "overload_release_NOT_poisoned"
         elif w[0] == "nfree" and w[1] == "0":
             yield "bookkeeping_free_of_inline_record"
+        elif w[0] == "failtext":
+            yield "report_text_compared"
+        elif w[0] == "crashcall":
+            yield "crash_allocator_fired"
+        elif w[0] == "ret" and op and op[0] in ("mlaalloc", "nullalloc"):
+            yield "acquire_through_" + op[0][:-5]
     for l in r.ops:
         w = l.split()
         if w and w[0] == "write":
@@ -462,37 +632,64 @@ def observe(r, rep):
 
 TRUSTED = [
     "Lean 4 kernel; axioms of every theorem audited (propext, Classical.choice, Quot.sound at most)",
-    "hand-written model lean/CppUModel/Model/LeakDetector.lean (deallocMemory, checkForCorruption, the guard loops, invalidateMemory, "
-    "the release wrappers), tied to src/CppUTest/MemoryLeakDetector.cpp, TestMemoryAllocator.cpp and MemoryLeakWarningPlugin.cpp by the "
-    "h_c06 correspondence of this run (real detector, real allocator objects and wrappers, real operator delete / delete[] / free overloads)",
-    "extractor translate/extract_leakdetector.py: matchingAllocation translated statement by statement, GuardBytes, guard size, poison byte, "
-    "statement order of the six release wrappers; shape checks of the guard loops, invalidateMemory, isOfEqualType, actualAllocator forwarders",
+    "hand-written model lean/CppUModel/Model/LeakDetector.lean (table, reallocMemory, stage release, the guard loops, block contents), tied to "
+    "src/CppUTest/MemoryLeakDetector.cpp, TestMemoryAllocator.cpp and MemoryLeakWarningPlugin.cpp by the h_c06 correspondence of this run "
+    "(real detector, real allocator objects and wrappers, real operator delete / delete[] / free overloads); deallocMemory, "
+    "checkForCorruption, invalidateMemory, the type-checking switch and isOfEqualType of that model are PROVED equal to what the "
+    "translator reads from the source at check time",
+    "extractors translate/extract_leakdetector.py (matchingAllocation statement by statement, GuardBytes, guard size, poison byte, the six "
+    "release wrappers, overload forwarding) and translate/extract_misuse.py (statement lists of checkForCorruption / deallocMemory / "
+    "invalidateMemory / reportFailure, the three report functions and their messages, the two location formats, default / NullUnknown / "
+    "base-class allocator names, MemoryLeakAllocator forwarders, CrashOnAllocationAllocator compare); shape checks only: the guard loops, "
+    "actualAllocator / name / alloc_name / free_name forwarders, hasBeenDestroyed, NullUnknownAllocator bodies",
+    "the interpreters of lean/CppUModel/Model/Misuse.lean (meaning given to the regenerated statement lists and printf formats); the report "
+    "text they produce is compared byte for byte with the text the real reporter receives (`failtext` lines)",
     "the block contents are a ghost field of the model record (user bytes + guard bytes of the block the record describes); distinct live "
     "blocks do not overlap (platform allocator)",
-    "MemoryLeakAllocator objects are exercised for actualAllocator()/names only (their alloc/free forward to the global detector)",
+    "PlatformSpecificMemset / PlatformSpecificVSNprintf of the Gcc platform behave as memset / vsnprintf",
 ]
 ASSUMPTIONS = [
     "writes are confined to the user bytes and the guard bytes of an outstanding block (a write behind the guard bytes hits padding or the "
     "inline record and is outside the property's quantifier)",
     "`a guard byte was changed` is read as: its current value differs from the pattern byte (a byte rewritten with its own value is not a change)",
-    "two allocator objects with one identity are one object (ConsistentIds); the family of an allocator is the name of its actual allocator",
-    "a block is released with the bookkeeping layout it was allocated with, except through the real overloads, which choose the layout per family",
+    "two allocator objects with one identity are one object (ConsistentIds); the family of an allocator is the name of its actual allocator; "
+    "the three default allocators are three families (checked: regenerated names, theorem default_families_distinct, oracle clause at setup)",
+    "a block is released with the bookkeeping layout it was allocated with, except through the real overloads, which choose the layout per family, "
+    "and through MemoryLeakAllocator::free_memory, which always uses the inline layout",
     "the reporter returns (recording MemoryLeakFailure, no longjmp), so the release continues after a report as the code is written",
+    "the releasing allocator object is alive: deallocMemory's hasBeenDestroyed() branch (record dropped, nothing checked, reported or freed) is "
+    "proved from the regenerated statement list but not exercised, because using a destroyed object is undefined behaviour",
+    "a report that does not fit the detector's 4096-byte text buffer (`fail lost`) is C14's subject and not judged here",
 ]
 RULE = ("histories of alloc/write/release over all 13 callable allocator objects (3 standard, same-name and other-name custom ones, "
-        "accounting wrappers incl. nested) on both sides, type checking on/off, direct API and the real overloads with changing current "
+        "accounting wrappers incl. nested) on both sides, the two MemoryLeakAllocator objects through their own alloc_memory / free_memory, "
+        "the NullUnknownAllocator on the releasing and acquiring side, a CrashOnAllocationAllocator as current allocator of one to three "
+        "families with a moving crash number, type checking on/off, direct API and the real overloads with changing current "
         "allocators, stale/interior(+-1..8)/foreign/NULL addresses; finite sweeps: every guard position x all 256 byte values (sizes "
         "0,1,8,63 quick; 0..64,100,255,400 thorough), every user offset of sizes 0..64,100,400, 13x13 allocator pairs x checking on/off x "
-        "intact/corrupted, 3x3 overload pairs x 8 current-allocator settings; non-trivial = at least one report or one poisoned release")
+        "intact/corrupted, 13 allocators x {both MemoryLeakAllocators, NullUnknownAllocator} x checking on/off x intact/corrupted, 3x3 overload "
+        "pairs x 8 current-allocator settings; the complete text of every report is compared; non-trivial = at least one report or one poisoned release")
 LEVEL_TEXT = ("Machine-checked Lean 4 theorems over the executable detector model: the report of a release is classified by four disjoint "
               "iff-cases (silent / non-allocated / mismatch / corruption) for every state, address, allocator pair and type-checking "
-              "setting; the regenerated matchingAllocation accepts iff checking is off or the families agree; the guard loop accepts iff "
-              "all guard bytes hold the pattern; a write of any byte at any user offset changes no verdict; a write of byte b at guard "
-              "position i is reported iff b differs from the pattern byte; wrappers compare as their actual allocator at any depth; "
-              "release through delete / delete[] / free hands back exactly that block with all user bytes poisoned, with the verdict of "
-              "a plain release. The model is tied to the code on every run by the differential harness (ASan/UBSan), by regenerated "
-              "functions/constants, and the implementation's observations are judged by an independent oracle.")
-LEVEL_NOTE = ("Trusted: Lean kernel; the hand-written model (validated by this run's correspondence); the extractor; ghost contents per "
-              "record. Not carried by theorems: that the compiled guard loop reads exactly these three bytes (observed: exhaustive sweep "
-              "under ASan); behaviour after a longjmp-ing reporter.")
-TECHNIQUE = "Lean 4 classification/invariance proofs over an executable model, differential correspondence harness incl. the real overloads, exhaustive guard-byte sweep, regenerated matchingAllocation and constants"
+              "setting — stated both for the hand model and for deallocMemory / checkForCorruption AS REGENERATED from the source "
+              "(statement lists executed by an interpreter and proved equal to the hand model, so a reordering, a dropped else, an inverted "
+              "guard or a changed argument breaks a proof); the regenerated matchingAllocation accepts iff checking is off or the families "
+              "agree, with isOfEqualType regenerated as name equality; the guard loop accepts iff all guard bytes hold the pattern; a write "
+              "of any byte at any user offset changes no verdict; a write of byte b at guard position i is reported iff b differs from the "
+              "pattern byte; wrappers compare as their actual allocator at any depth and MemoryLeakAllocator's own free_memory is a release "
+              "through the wrapped allocator; the three default allocators, NullUnknownAllocator and the base-class default are five "
+              "different families (regenerated names); release through delete / delete[] / free hands back exactly that block with all user "
+              "bytes poisoned (invalidateMemory regenerated: fill byte, length, lookup), with the verdict of a plain release; the text handed "
+              "to the reporter is, for every category and field values, the category line followed by the two location lines built from the "
+              "regenerated formats, and its first line decodes to the category. The model is tied to the code on every run by the "
+              "differential harness (ASan/UBSan), and the implementation's observations are judged by an independent oracle.")
+LEVEL_NOTE = ("Trusted: Lean kernel; the hand-written parts of the model that are not regenerated (table, realloc, stage release, guard loops; "
+              "validated by this run's correspondence); the two extractors and the interpreters of the regenerated lists (validated by the "
+              "byte-for-byte text comparison and the event comparison); ghost contents per record. Not carried by theorems: that the compiled "
+              "guard loop reads exactly these three bytes (observed: exhaustive sweep under ASan); vsnprintf/memset of the platform; behaviour "
+              "after a longjmp-ing reporter; a destroyed releasing allocator (proved from the list, never executed); the accounting wrappers' "
+              "own bookkeeping (observed only).")
+TECHNIQUE = ("Lean 4 classification/invariance proofs over an executable model; misuse path (deallocMemory, checkForCorruption, invalidateMemory, "
+             "report functions, formats, allocator names, forwarders) regenerated from the source as statement lists and proved equal to the "
+             "model; differential correspondence harness incl. the real overloads, MemoryLeakAllocator / NullUnknownAllocator / "
+             "CrashOnAllocationAllocator objects and the complete report text; exhaustive guard-byte sweep")
